@@ -77,7 +77,7 @@ struct SimCPU {
     std::vector<CpuTrap> traps;      // traps of the current op
     uint64_t n_traps = 0;
     bool illegal_xgetbv = false;     // xgetbv executed on a model without OSXSAVE
-    void set(const CpuModel *m) { model = m; }
+    void set(const CpuModel *m);     // a different simulated CPU is a different simulated host: the library's thread-local storage starts afresh
     void begin_op() { traps.clear(); illegal_xgetbv = false; }
     static void install();           // SIGILL handler
     // What an ideal probe would conclude on this model.
@@ -85,6 +85,17 @@ struct SimCPU {
     static bool want128(const CpuModel &m) { return m.sse2; }
 };
 extern SimCPU g_cpu;
+
+// Thread-local storage of the executable image (the library is linked statically, so a `__thread` variable of library code
+// lives here).  The simulator runs every simulated thread and every simulated host on ONE OS thread, so it has to give each
+// of them its own copy: thrsim swaps the block at every context switch, and a change of the simulated CPU resets it to the
+// initial image.  With no PT_TLS segment (the tree as it stands) all of this is a no-op.
+struct ExeTls { uint8_t *block = nullptr; size_t memsz = 0, filesz = 0; const uint8_t *image = nullptr; };
+const ExeTls &exe_tls();
+void exe_tls_reset();                         // block := initial image
+void exe_tls_save(std::vector<uint8_t> &to);  // copy the block out
+void exe_tls_load(const std::vector<uint8_t> &from);
+static inline bool in_exe_tls(const void *p) { const ExeTls &t = exe_tls(); return t.memsz && (const uint8_t *)p >= t.block && (const uint8_t *)p < t.block + t.memsz; }
 extern const CpuModel CPU_GENERIC, CPU_SSE2, CPU_AVX2;   // pinning models
 const CpuModel *cpu_pin_model(int backend);               // 0 generic, 1 vec128, 2 vec256
 
